@@ -1,7 +1,7 @@
 (* A concrete well-formed state exercising every feature of the content file: the hypotheses of the theorems are
    satisfiable, and the theorems can be replayed by computation on it. *)
 From Coq Require Import NArith ZArith List Bool Lia.
-From Snap.Codec Require Import Varint CodecModel CodecProofs CodecRoundTrip.
+From Snap.Codec Require Import Varint CodecModel CodecProofs CodecRoundTrip CodecRewrite.
 Import ListNotations.
 Local Open Scope N_scope.
 
@@ -195,3 +195,17 @@ Qed.
    real content file and on every generated state whose info times are <= now) *)
 Example ex_rewrite_reproduces : encode (T0 + 100) (normalise (T0 + 100) ex_state) = encode (T0 + 100) ex_state.
 Proof. vm_compute. reflexivity. Qed.
+
+Example ex_unclamped :
+  Forall (fun i => i <> 0 -> fold_left oldest_step (pinfo ex_state) 0 <= info_time i /\ info_time i <= T0 + 100) (pinfo ex_state).
+Proof.
+  assert (E : pinfo ex_state = [T0 + 4; T0 + 8 + 1; T0 - 80 + 2; 0]) by (vm_compute; reflexivity).
+  rewrite E.
+  constructor; [intros _; vm_compute; split; discriminate|].
+  constructor; [intros _; vm_compute; split; discriminate|].
+  constructor; [intros _; vm_compute; split; discriminate|].
+  constructor; [intros H; exfalso; apply H; reflexivity|constructor].
+Qed.
+
+Example ex_clock_ok : 8 <= T0 + 3 /\ 8 <= T0 + 100.
+Proof. split; vm_compute; discriminate. Qed.
